@@ -8,6 +8,7 @@ from checks import common as cm
 from checks import phys
 
 ID = 'C05'
+HASHSEED_EVERY = {'quick': 27, 'thorough': 60}     # one case in so many is also run under other string-hash seeds (harness._run_hashseed_invariant)
 BUDGET = {'quick': 80, 'thorough': 6000}
 REACH_N = 6
 DET_K = 2
